@@ -4,6 +4,8 @@ import (
 	"bytes"
 	"context"
 	"fmt"
+	"sort"
+	"strings"
 	"sync"
 	"time"
 
@@ -477,4 +479,47 @@ func (n *Node) Apply(s Spec) (*blockchain.Block, error) {
 		return b, fmt.Errorf("block %d built by the harness was not appended (silently discarded)", b.Header.Height)
 	}
 	return b, nil
+}
+
+// NormDump renders a dump as a map with state-diff records (prefix 51) made order-independent: the engine writes the
+// three lists of a diff in map-iteration order, which carries no meaning.
+func NormDump(d []KV) map[string]string {
+	out := map[string]string{}
+	for _, kv := range d {
+		v := string(kv.V)
+		if len(kv.K) > 0 && kv.K[0] == 51 {
+			df := &diffdb.Diff{}
+			if err := df.Decode(kv.V); err == nil {
+				var parts []string
+				for _, k := range df.Added {
+					parts = append(parts, fmt.Sprintf("A %x", k))
+				}
+				for _, e := range df.Updated {
+					parts = append(parts, fmt.Sprintf("U %x=%x", e.Key, e.Value))
+				}
+				for _, e := range df.Deleted {
+					parts = append(parts, fmt.Sprintf("D %x=%x", e.Key, e.Value))
+				}
+				sort.Strings(parts)
+				v = strings.Join(parts, ";")
+			}
+		}
+		out[string(kv.K)] = v
+	}
+	return out
+}
+
+// RebuildApp resets the fake application state to the engine's chain (what Init recovery achieves after a crash).
+func (n *Node) RebuildApp() error {
+	app := NewApp()
+	tip := n.Tip().Header.Height
+	for h := n.Cfg.GenesisHeight; h <= tip; h++ {
+		hd, err := n.Chain.DataAccess().GetBlockHeaderByHeight(h)
+		if err != nil {
+			return err
+		}
+		app.Stack = append(app.Stack, rootEntry{h, append([]byte{}, hd.StateRoot...)})
+	}
+	n.ABI.App = app
+	return nil
 }
